@@ -18,7 +18,8 @@ git apply $OUT/patch.diff
 rm -f $WT/demo
 if [ "${SKIP_SUITE:-0}" != "1" ]; then
   echo "== library test-suite WITH the change"
-  (cd $WT && cmake -G Ninja -B _build -DCMAKE_BUILD_TYPE=RelWithDebInfo -DCMAKE_CXX_FLAGS=-Wno-error -DWITH_TSAN=ON >/dev/null 2>&1 && cmake --build _build --target gtest -j12 2>&1 | tail -1 && ./_build/gtest 2>&1 | tail -2 | tee $OUT/suite_with.log)
+  GT=""; [ -f $WT/3rdParty/gtest/googletest/src/gtest-all.cc ] || GT="-DGOOGLETEST_ROOT=../../usr/src/googletest/googletest"
+  (cd $WT && cmake -G Ninja -B _build -DCMAKE_BUILD_TYPE=RelWithDebInfo -DCMAKE_CXX_FLAGS=-Wno-error -DWITH_TSAN=ON $GT >/dev/null 2>&1 && cmake --build _build --target gtest -j12 2>&1 | tail -1 && ./_build/gtest 2>&1 | tail -2 | tee $OUT/suite_with.log)
   rm -rf $WT/_build
 fi
 echo "== checks against /repo with the patch applied"
